@@ -24,8 +24,7 @@ def build(tier, seed):
                          make_string=A + 'make_string',
                          word_lt_call=(AN + '(anonymous class)::operator()', 'std_identifier'),
                          eq_call=('ipr::util::string_pool::intern(ipr::util::word_view)::(anonymous class)::operator()', 'String')))
-    it.std = dict(sv_eq=('std::operator==', 'basic_string_view', '__std__ZSteqIDu'), sv_spaceship=('std::operator<=>', 'basic_string_view'), ord_lt=('std::operator<', 'strong_ordering'),
-                  lower_bound=('std::lower_bound', 'std_identifier'), hash=('std::hash<std::basic_string_view<char8_t>>::operator()',),
+    it.std = dict(lower_bound=('std::lower_bound', 'std_identifier'), hash=('std::hash<std::basic_string_view<char8_t>>::operator()',),
                   map_index=('std::map<ipr::util::hash_code, std::forward_list<ipr::impl::String>>::operator[]',),
                   fl_begin=('std::forward_list<ipr::impl::String>::begin',), fl_end=('std::forward_list<ipr::impl::String>::end',),
                   it_eq=('std::operator==', '_Fwd_list_iterator'), it_deref=('std::_Fwd_list_iterator<ipr::impl::String>::operator*',),
